@@ -57,39 +57,87 @@ Definition legacy_enum_name (pkg full : bytes) : bytes :=
   | None => full
   end.
 
-Definition go_tag (syntax pkg : bytes) (f : field) : bytes :=
-  let proto3 := bytes_eqb syntax (b "proto3") in
+(* proto3: whether the proto3 marker is written (it is not on protobuf_key / protobuf_val). *)
+Definition go_tag_gen (proto3 : bool) (pkg : bytes) (f : field) : bytes :=
   wire_name (f_kind f) ++ [44] ++ Z_to_dec (f_number f) ++ [44] ++ card_name (f_card f) ++
-  (if (f_card f =? 3) && packable (f_kind f) && proto3 then b ",packed" else []) ++
+  (if f_packed f then b ",packed" else []) ++
   b ",name=" ++ f_name f ++
   (if negb (bytes_eqb (f_json f) []) && negb (bytes_eqb (f_json f) (f_name f)) then b ",json=" ++ f_json f else []) ++
   (if proto3 then b ",proto3" else []) ++
   (if bytes_eqb (f_kind f) (b "enum") then b ",enum=" ++ legacy_enum_name pkg (f_type f) else []) ++
   (match f_oneof f with Some _ => b ",oneof" | None => [] end).
 
-(* The tagged fields of the struct of a message, in order, as (protobuf tag, protobuf_oneof
-   tag): one entry per field outside a declared oneof, one entry per declared oneof at the
-   place of its first member (members live in wrapper structs). *)
-Fixpoint struct_fields (syntax pkg : bytes) (fs : list field) (seen : list bytes) : list (bytes * bytes) :=
-  match fs with
-  | [] => []
-  | f :: t =>
-      match f_oneof f with
-      | Some o =>
-          if f_optional f then (go_tag syntax pkg f, []) :: struct_fields syntax pkg t seen
-          else if mem o seen then struct_fields syntax pkg t seen
-          else ([], o) :: struct_fields syntax pkg t (o :: seen)
-      | None => (go_tag syntax pkg f, []) :: struct_fields syntax pkg t seen
+Definition go_tag (syntax pkg : bytes) (f : field) : bytes :=
+  go_tag_gen (bytes_eqb syntax (b "proto3")) pkg f.
+
+(* ------------------------------------------------------------------ Go types *)
+
+(* Types of other files: full proto name -> (proto package, Go import path). *)
+Definition ext_types := list (bytes * (bytes * bytes)).
+
+Fixpoint ext_lookup (ext : ext_types) (full : bytes) : option (bytes * bytes) :=
+  match ext with
+  | [] => None
+  | (n, v) :: t => if bytes_eqb n full then Some v else ext_lookup t full
+  end.
+
+(* protogen QualifiedGoIdent with the package qualifier written as the import path. *)
+Definition go_qual (pkg : bytes) (ext : ext_types) (full : bytes) : bytes :=
+  match strip_prefix (pkg ++ [46]) full with
+  | Some rel => go_ident rel
+  | None =>
+      match ext_lookup ext full with
+      | Some (tpkg, gopath) =>
+          match strip_prefix (tpkg ++ [46]) full with
+          | Some rel => gopath ++ [46] ++ go_ident rel
+          | None => b "?" ++ full
+          end
+      | None => b "?" ++ full
       end
   end.
 
+(* internal_gengo.fieldGoType before list / map / presence are applied. *)
+Definition elem_type (pkg : bytes) (ext : ext_types) (f : field) : bytes :=
+  let k := f_kind f in
+  if bytes_eqb k (b "bool") then b "bool"
+  else if bytes_eqb k (b "enum") then go_qual pkg ext (f_type f)
+  else if mem k [b "int32"; b "sint32"; b "sfixed32"] then b "int32"
+  else if mem k [b "uint32"; b "fixed32"] then b "uint32"
+  else if mem k [b "int64"; b "sint64"; b "sfixed64"] then b "int64"
+  else if mem k [b "uint64"; b "fixed64"] then b "uint64"
+  else if bytes_eqb k (b "float") then b "float32"
+  else if bytes_eqb k (b "double") then b "float64"
+  else if bytes_eqb k (b "string") then b "string"
+  else if bytes_eqb k (b "bytes") then b "[]byte"
+  else b "*" ++ go_qual pkg ext (f_type f).
+
+(* The key and value fields of the map entry a repeated field refers to, if it is a map:
+   the entry is a nested message of the same message. full: full name of that message. *)
+Definition map_entry_of (full : bytes) (nested : list message) (f : field) : option (field * field) :=
+  match find (fun n => m_map_entry n && bytes_eqb (f_type f) (full ++ [46] ++ m_name n)) nested with
+  | Some n => match m_fields n with k :: v :: _ => Some (k, v) | _ => None end
+  | None => None
+  end.
+
+Definition has_presence_ptr (proto3 : bool) (f : field) : bool :=
+  (f_optional f || negb proto3) && negb (mem (f_kind f) [b "message"; b "group"; b "bytes"]).
+
+Definition go_field_type (proto3 : bool) (pkg : bytes) (ext : ext_types) (full : bytes) (nested : list message)
+           (f : field) : bytes :=
+  if f_card f =? 3 then
+    match map_entry_of full nested f with
+    | Some (k, v) => b "map[" ++ elem_type pkg ext k ++ b "]" ++ elem_type pkg ext v
+    | None => b "[]" ++ elem_type pkg ext f
+    end
+  else if has_presence_ptr proto3 f then b "*" ++ elem_type pkg ext f
+  else elem_type pkg ext f.
+
+Definition go_field_name (f : field) : bytes := go_camel (f_name f) true false.
+
 (* ------------------------------------------------------------------ what was read from api.pb.go *)
 
-Definition go_enum := (bytes * list (bytes * Z))%type.              (* Go type, constants *)
-Definition go_struct := (bytes * list (bytes * bytes * bytes))%type. (* Go type, (field, tag, oneof tag) *)
-
-Definition struct_tags (g : go_struct) : list (bytes * bytes) :=
-  List.map (fun x => (snd (fst x), snd x)) (snd g).
+Definition go_enum := (bytes * list (bytes * Z))%type.     (* Go type, constants *)
+Definition go_struct := (bytes * list go_field)%type.      (* Go type, tagged fields *)
 
 (* Constants of an enum declared under the relative name prefix scope (empty at top level,
    Outer. inside message Outer): the type is the camel-cased relative name; the constants
@@ -99,14 +147,83 @@ Definition enum_consts (scope : bytes) (e : enum) : go_enum :=
   let pre := match scope with [] => ty | _ => go_ident (removelast scope) end in
   (ty, List.map (fun v => (pre ++ [95] ++ fst v, snd v)) (e_values e)).
 
+Definition go_field_eqb (x y : go_field) : bool :=
+  bytes_eqb (gf_name x) (gf_name y) && bytes_eqb (gf_type x) (gf_type y) && bytes_eqb (gf_tag x) (gf_tag y) &&
+  bytes_eqb (gf_json x) (gf_json y) && bytes_eqb (gf_oneof x) (gf_oneof y) && bytes_eqb (gf_key x) (gf_key y) &&
+  bytes_eqb (gf_val x) (gf_val y).
+
+Definition with_name (n : bytes) (g : go_field) : go_field :=
+  MkGoField n (gf_type g) (gf_tag g) (gf_json g) (gf_oneof g) (gf_key g) (gf_val g).
+
+(* protoc-gen-go appends underscores to a field name that collides with a method name. *)
+Definition name_ok (got want : bytes) : Prop := exists r, got = want ++ r /\ Forall (fun c => c = 95) r.
+Definition name_ok_b (got want : bytes) : bool :=
+  match strip_prefix want got with Some r => forallb (fun c => c =? 95) r | None => false end.
+
+(* got is the wanted field: same type expression and struct tags, same name up to
+   trailing underscores. *)
+Definition gf_match (want got : go_field) : Prop :=
+  name_ok (gf_name got) (gf_name want) /\ with_name (gf_name want) got = want.
+Definition gf_match_b (want got : go_field) : bool :=
+  name_ok_b (gf_name got) (gf_name want) && go_field_eqb (with_name (gf_name want) got) want.
+
+Section Forall2b.
+  Context {A B : Type} (p : A -> B -> bool).
+  Fixpoint forall2b (l : list A) (l' : list B) : bool :=
+    match l, l' with
+    | [], [] => true
+    | x :: t, y :: t' => p x y && forall2b t t'
+    | _, _ => false
+    end.
+End Forall2b.
+
 Section Code.
-  Variables (syntax pkg : bytes) (ges : list go_enum) (gss : list go_struct).
+  Variables (syntax pkg : bytes) (ext : ext_types) (ges : list go_enum) (gss : list go_struct).
+
+  Let proto3 := bytes_eqb syntax (b "proto3").
+
+  (* The tagged fields wanted in the struct of the message with relative name rel: one per
+     field outside a declared oneof -- Go name, Go type, protobuf tag, json tag, and for maps
+     the key and value tags -- and one per declared oneof at the place of its first member
+     (interface type isMsg_Oneof); the members live in wrapper structs. *)
+  Fixpoint struct_fields (rel : bytes) (nested : list message) (fs : list field) (seen : list bytes) : list go_field :=
+    match fs with
+    | [] => []
+    | f :: t =>
+        let plain :=
+          let kv := match (if f_card f =? 3 then map_entry_of (pkg ++ [46] ++ rel) nested f else None) with
+                    | Some (k, v) => (go_tag_gen false pkg k, go_tag_gen false pkg v)
+                    | None => ([], [])
+                    end in
+          MkGoField (go_field_name f) (go_field_type proto3 pkg ext (pkg ++ [46] ++ rel) nested f)
+                    (go_tag syntax pkg f) (f_name f ++ b ",omitempty") [] (fst kv) (snd kv) in
+        match f_oneof f with
+        | Some o =>
+            if f_optional f then plain :: struct_fields rel nested t seen
+            else if mem o seen then struct_fields rel nested t seen
+            else MkGoField (go_camel o true false) (b "is" ++ go_ident rel ++ [95] ++ go_camel o true false) [] [] o [] []
+                 :: struct_fields rel nested t (o :: seen)
+        | None => plain :: struct_fields rel nested t seen
+        end
+    end.
+
+  (* The wrapper struct of a member of a declared oneof: Msg_Field { Field T `protobuf:...` }. *)
+  Definition wrapper_of (rel : bytes) (f : field) : bytes * list go_field :=
+    (go_ident rel ++ [95] ++ go_field_name f,
+     [MkGoField (go_field_name f) (elem_type pkg ext f) (go_tag syntax pkg f) [] [] [] []]).
+
+  Definition oneof_members (fs : list field) : list field :=
+    filter (fun f => match f_oneof f with Some _ => negb (f_optional f) | None => false end) fs.
 
   Definition enum_coded (scope : bytes) (e : enum) : Prop := In (enum_consts scope e) ges.
 
+  Definition struct_is (name : bytes) (want : list go_field) : Prop :=
+    exists g, In g gss /\ fst g = name /\ Forall2 gf_match want (snd g).
+
   Definition struct_coded (scope : bytes) (m : message) : Prop :=
-    exists g, In g gss /\ fst g = go_ident (scope ++ m_name m) /\
-              struct_tags g = struct_fields syntax pkg (m_fields m) [].
+    let rel := scope ++ m_name m in
+    struct_is (go_ident rel) (struct_fields rel (m_nested m) (m_fields m) []) /\
+    forall f, In f (oneof_members (m_fields m)) -> struct_is (fst (wrapper_of rel f)) (snd (wrapper_of rel f)).
 
   (* A message, its enums and its nested messages (map entries have no struct) are coded. *)
   Inductive msg_coded : bytes -> message -> Prop :=
@@ -123,11 +240,14 @@ Section Code.
   Definition enum_coded_b (scope : bytes) (e : enum) : bool :=
     let want := enum_consts scope e in existsb (go_enum_eqb want) ges.
 
+  Definition struct_is_b (name : bytes) (want : list go_field) : bool :=
+    existsb (fun g => bytes_eqb (fst g) name && forall2b gf_match_b want (snd g)) gss.
+
   Definition struct_coded_b (scope : bytes) (m : message) : bool :=
-    let name := go_ident (scope ++ m_name m) in
-    let tags := struct_fields syntax pkg (m_fields m) [] in
-    existsb (fun g => bytes_eqb (fst g) name &&
-                      list_eqb (pair_eqb bytes_eqb bytes_eqb) (struct_tags g) tags) gss.
+    let rel := scope ++ m_name m in
+    let want := struct_fields rel (m_nested m) (m_fields m) [] in
+    struct_is_b (go_ident rel) want &&
+    forallb (fun f => let w := wrapper_of rel f in struct_is_b (fst w) (snd w)) (oneof_members (m_fields m)).
 
   Fixpoint msg_coded_b (scope : bytes) (m : message) {struct m} : bool :=
     match m with
@@ -140,10 +260,61 @@ Section Code.
 End Code.
 
 (* The enum constants and message structs of api.pb.go are the ones the descriptor yields. *)
-Definition gocode_spec (f : file) (ges : list go_enum) (gss : list go_struct) : Prop :=
+Definition gocode_spec (f : file) (ext : ext_types) (ges : list go_enum) (gss : list go_struct) : Prop :=
   (forall e, In e (fd_enums f) -> enum_coded ges [] e) /\
-  (forall m, In m (fd_messages f) -> msg_coded (fd_syntax f) (fd_package f) ges gss [] m).
+  (forall m, In m (fd_messages f) -> msg_coded (fd_syntax f) (fd_package f) ext ges gss [] m).
 
-Definition gocode_ok (f : file) (ges : list go_enum) (gss : list go_struct) : bool :=
+Definition gocode_ok (f : file) (ext : ext_types) (ges : list go_enum) (gss : list go_struct) : bool :=
   forallb (enum_coded_b ges []) (fd_enums f) &&
-  forallb (msg_coded_b (fd_syntax f) (fd_package f) ges gss []) (fd_messages f).
+  forallb (msg_coded_b (fd_syntax f) (fd_package f) ext ges gss []) (fd_messages f).
+
+(* ------------------------------------------------------------------ the code of _grpc.pb.go *)
+
+Section GrpcCode.
+  Variables (f : file) (ext : ext_types) (g : grpc_desc) (s : service).
+
+  Definition const_name (me : method) : bytes := fst (full_method_const f s me).
+  Definition handler_name (me : method) : bytes := [95] ++ s_name s ++ [95] ++ me_name me ++ b "_Handler".
+  Definition msg_go (full : bytes) : bytes := go_qual (fd_package f) ext full.
+
+  (* The client method of an rpc passes on the FullMethodName constant of that rpc and, when
+     unary, takes *Request and returns *Response. *)
+  Definition client_ok (me : method) (c : client_method) : Prop :=
+    cm_name c = me_name me /\ cm_const c = const_name me /\
+    (is_unary me = true -> cm_in c = b "*" ++ msg_go (me_input me) /\ cm_out c = b "*" ++ msg_go (me_output me)).
+
+  Definition client_ok_b (me : method) (c : client_method) : bool :=
+    bytes_eqb (cm_name c) (me_name me) && bytes_eqb (cm_const c) (const_name me) &&
+    (if is_unary me then bytes_eqb (cm_in c) (b "*" ++ msg_go (me_input me)) &&
+                         bytes_eqb (cm_out c) (b "*" ++ msg_go (me_output me)) else true).
+
+  (* The handler of an rpc exists, calls exactly that method of the server interface and,
+     when unary, decodes into the request type and reports the rpc's FullMethodName constant. *)
+  Definition handler_ok (me : method) : Prop :=
+    exists h, In h (g_handlers g) /\ hf_name h = handler_name me /\ hf_calls h = [me_name me] /\
+      (is_unary me = true -> hf_new h = msg_go (me_input me) /\ hf_consts h = [const_name me]).
+
+  Definition handler_ok_b (me : method) : bool :=
+    existsb (fun h => bytes_eqb (hf_name h) (handler_name me) && list_eqb bytes_eqb (hf_calls h) [me_name me] &&
+                      (if is_unary me then bytes_eqb (hf_new h) (msg_go (me_input me)) &&
+                                           list_eqb bytes_eqb (hf_consts h) [const_name me] else true)) (g_handlers g).
+
+  (* ServiceDesc entries in the order of the literal: unary methods, then streams. *)
+  Definition bindings_want : list (bytes * bytes) :=
+    List.map (fun me => (me_name me, handler_name me))
+             (filter is_unary (s_methods s) ++ filter (fun me => negb (is_unary me)) (s_methods s)).
+End GrpcCode.
+
+(* The client methods, the (method, handler) pairs of the ServiceDesc literal and the
+   handler functions of _grpc.pb.go are the ones of the service of the descriptor. *)
+Definition grpc_code_spec (f : file) (ext : ext_types) (g : grpc_desc) : Prop :=
+  exists s, In s (fd_services f) /\ g_service g = full_service f s /\
+    Forall2 (client_ok f ext s) (s_methods s) (g_client g) /\
+    g_bindings g = bindings_want s /\
+    forall me, In me (s_methods s) -> handler_ok f ext g s me.
+
+Definition grpc_code_ok (f : file) (ext : ext_types) (g : grpc_desc) : bool :=
+  existsb (fun s => bytes_eqb (g_service g) (full_service f s) &&
+                    forall2b (client_ok_b f ext s) (s_methods s) (g_client g) &&
+                    list_eqb (pair_eqb bytes_eqb bytes_eqb) (g_bindings g) (bindings_want s) &&
+                    forallb (handler_ok_b f ext g s) (s_methods s)) (fd_services f).
